@@ -3,8 +3,11 @@
 # Prints the check's verdict lines; exit 0 if the check flagged the change (VIOLATION), 1 if it did not.
 P="$1"; ID="$2"; TIER="${3:-quick}"
 DIR="$(cd "$(dirname "$0")/.." && pwd)"
-git -C /repo apply "$P" || { echo "patch does not apply"; exit 2; }
+if ! git -C /repo apply "$P" 2>/dev/null; then
+  git -C /repo apply --3way "$P" >/dev/null 2>&1 || { git -C /repo reset -q --hard HEAD; echo "patch does not apply"; exit 2; }
+  git -C /repo reset -q
+fi
 OUT=$("$DIR/bin/run_check.sh" "$ID" "$TIER" 2>&1); RC=$?
-git -C /repo checkout -- . 
-echo "$OUT" | grep -E "VIOLATION|KNOWN-FINDING|^OK|^  \[" | head -8
+git -C /repo reset -q --hard HEAD
+echo "$OUT" | grep -E "VIOLATION|^OK|^  \[" | head -6
 if echo "$OUT" | grep -q "^VIOLATION"; then echo "DETECTED ($ID)"; exit 0; else echo "MISSED ($ID) rc=$RC"; exit 1; fi
